@@ -1,4 +1,5 @@
 import Fdo.Proto.ServerProofs
+import Fdo.Proto.ServerGrammar
 import Fdo.Facts
 import Fdo.Gen.Handler
 import Fdo.Gen.Proto
@@ -214,6 +215,22 @@ theorem start_makes_new_session (st : State) (r : Req) (hst : isStart r.typ = tr
   | rejected _ _ _ _ _ h _ _ _ _ => rw [hst] at h; cases h
   | noSession _ _ _ h _ => rw [hst] at h; cases h
 
+
+
+/-- **Every session follows its protocol's order, completely.** After any history of requests —
+honest, replayed, adversarial, under any tokens, interleaved in any way — the requests a session has
+answered (its `hist`) form a word of its protocol's automaton (`scan`): DI `10 12`, TO0 `20 22`, TO1
+`30 32`, TO2 `60 62* 64 (62|66|68)* 70`, each possibly cut short, never out of order, never with a
+step repeated that the protocol has once, and a session that answered its final message is not live. -/
+theorem history_is_a_protocol_word (v : List Nat) (reuse : Bool) (m : Nat) (history : List Req) (k : Nat) (s : Sess)
+    (hs : (stateAfter (init v reuse m) history).sessions[k]? = some s) :
+    ∃ ph, runAuto s.proto s.hist = some ph ∧ (ph = 3 → s.live = false) := by
+  obtain ⟨⟨ph, hr, hrel⟩, _⟩ := stateAfter_invH (init_invH v reuse m) history k s hs
+  refine ⟨ph, hr, fun h3 => ?_⟩
+  rcases hrel with ⟨_, hd⟩ | hrel
+  · exact hd
+  · subst h3
+    cases hp : s.proto <;> simp [hp] at hrel
 
 /-- **The model's tables are the handler's.** Regenerated on every run from http/handler.go,
 server.go (go/ast) and protocol.Of (executed): the message types that start a protocol, the
